@@ -117,32 +117,23 @@ Theorem walk_prunes_stop_set :
 Proof. exact walk_prunes_stop_set_proof. Qed.
 Print Assumptions walk_prunes_stop_set.
 
-(* All trees, any visitor: an event at path p is about the subtree at p and reports its type; a struct
-   value is handed over exactly for the leaves the tree stores by value; never a typed nil. *)
+(* All trees, any visitor: an event at path p is about the subtree at p and reports its type. *)
 Theorem walk_identity :
   forall (V : Type) (enter : list (event V) -> V -> path -> ty -> flavour -> option V) (v0 : V) (t : tree) e,
     In e (fst (walk_p gen_spec V enter v0 t)) ->
-    (exists c, subtree_at t (e_path e) = Some c /\ tree_ty c = e_ty e) /\
-    ((by_value gen_spec (e_ty e) = false /\ (e_fl e = Orig \/ e_fl e = Copy)) \/
-     (by_value gen_spec (e_ty e) = true /\ e_fl e = ByVal)).
+    exists c, subtree_at t (e_path e) = Some c /\ tree_ty c = e_ty e.
 Proof. exact walk_identity_proof. Qed.
 Print Assumptions walk_identity.
 
-(* "Nothing is visited that is not part of the tree", read for ADDRESSES, is false of the code: the
-   Field of a class element (and the ClassElementName / PropertyName / LiteralExpr embedded in it) is
-   passed to the visitor as the address of the loop variable of `for _, item := range n.List`.
-   Witness: class A { #p = x; m(){} }. *)
-Theorem walk_hands_over_tree_addresses_refuted :
-  exists t e, well_typed gen_spec t = true /\ In e (fst (walk_p gen_spec nat descend_all 0 t)) /\
-              e_k e = KEnter /\ e_ty e = T_Field /\ e_fl e = Copy.
-Proof. exact walk_hands_over_copies_witness. Qed.
-Print Assumptions walk_hands_over_tree_addresses_refuted.
-
-(* ... and that is the only place: a copy is handed over only at or below a ClassElement. *)
-Theorem walk_hands_over_tree_addresses_partial :
+(* "Nothing is visited that is not part of the tree", read for ADDRESSES: for all trees and all
+   visitors, every node that the tree holds by address is handed to Enter/Exit by that address (never
+   the address of a copy, a typed nil or a struct value); the leaves the tree itself stores by value
+   (DotExpr.Y) are handed over by value.  (False before fix 3931a8d: the ClassDecl arm ranged over
+   n.List by value; that table is kept as [legacy_spec] in Walk/Proofs.v with its witness.) *)
+Theorem walk_hands_over_tree_addresses :
   forall (V : Type) (enter : list (event V) -> V -> path -> ty -> flavour -> option V) (v0 : V) (t : tree) e,
-    well_typed gen_spec t = true ->
-    In e (fst (walk_p gen_spec V enter v0 t)) -> e_fl e = Copy ->
-    exists q c, subtree_at t q = Some c /\ tree_ty c = T_ClassElement /\ prefix q (e_path e).
-Proof. exact walk_copies_only_in_class_elements_proof. Qed.
-Print Assumptions walk_hands_over_tree_addresses_partial.
+    In e (fst (walk_p gen_spec V enter v0 t)) ->
+    (by_value gen_spec (e_ty e) = false /\ e_fl e = Orig) \/
+    (by_value gen_spec (e_ty e) = true /\ e_fl e = ByVal).
+Proof. exact walk_hands_over_tree_addresses_proof. Qed.
+Print Assumptions walk_hands_over_tree_addresses.
